@@ -149,14 +149,13 @@ def _defs_named(scope: ast.AST, name: str) -> list[ast.AST]:
 
 
 def own_nodes(func: ast.AST) -> Iterable[ast.AST]:
-    """Walk a function body without entering nested defs / lambdas / classes."""
-    stack = list(ast.iter_child_nodes(func))
-    while stack:
-        n = stack.pop()
-        yield n
-        if isinstance(n, (ast.FunctionDef, ast.AsyncFunctionDef, ast.ClassDef, ast.Lambda)):
+    """Pre-order walk (source order) of a function body without entering nested
+    defs / lambdas / classes (the nested def node itself is yielded)."""
+    for child in ast.iter_child_nodes(func):
+        yield child
+        if isinstance(child, (ast.FunctionDef, ast.AsyncFunctionDef, ast.ClassDef, ast.Lambda)):
             continue
-        stack.extend(ast.iter_child_nodes(n))
+        yield from own_nodes(child)
 
 
 def nested_defs(func: ast.AST) -> list[ast.FunctionDef]:
